@@ -5,7 +5,7 @@
 # usage: confirm_mutant.sh <patch.diff> <demo.rs> ; prints CONFIRMED or NOT-CONFIRMED: <why>
 set -u
 PATCH="$(readlink -f "$1")"; DEMO="$(readlink -f "$2")"
-WT=/tmp/wt/confirm
+WT="${CONFIRM_WT:-/tmp/wt/confirm}"
 if [ ! -d "$WT" ]; then git -C /repo worktree add -q --detach "$WT" HEAD || exit 2; fi
 cd "$WT" || exit 2
 git checkout -q --detach "$(git -C /repo rev-parse HEAD)" 2>/dev/null
@@ -14,7 +14,7 @@ name="demo_confirm"
 cp "$DEMO" "tests/$name.rs"
 if ! git apply --check "$PATCH" 2>/dev/null; then echo "NOT-CONFIRMED: patch does not apply"; git clean -fdq -e target; exit 1; fi
 # without the change: demo passes
-if ! cargo test --offline --test $name >/tmp/wt/confirm_clean.log 2>&1; then echo "NOT-CONFIRMED: demo fails on the unchanged tree"; tail -5 /tmp/wt/confirm_clean.log; git clean -fdq -e target; exit 1; fi
+if ! cargo test --offline --test $name >"$WT.clean.log" 2>&1; then echo "NOT-CONFIRMED: demo fails on the unchanged tree"; tail -5 "$WT.clean.log"; git clean -fdq -e target; exit 1; fi
 git apply "$PATCH"
 # with the change: suite passes (demo excluded), demo fails
 rm -f "tests/$name.rs"
@@ -22,6 +22,6 @@ out=$(cargo nextest run --workspace --no-fail-fast --tool-config-file pb:/w/lib/
 sum=$(echo "$out" | grep -E "Summary" | tail -1)
 if [ $rc -ne 0 ]; then echo "NOT-CONFIRMED: existing suite fails with the change: $sum"; echo "$out" | grep -E "FAIL|error" | head -5; git checkout -q -- .; git clean -fdq -e target; exit 1; fi
 cp "$DEMO" "tests/$name.rs"
-if cargo test --offline --test $name >/tmp/wt/confirm_mut.log 2>&1; then echo "NOT-CONFIRMED: demo passes with the change"; git checkout -q -- .; git clean -fdq -e target; exit 1; fi
+if cargo test --offline --test $name >"$WT.mut.log" 2>&1; then echo "NOT-CONFIRMED: demo passes with the change"; git checkout -q -- .; git clean -fdq -e target; exit 1; fi
 git checkout -q -- .; git clean -fdq -e target
 echo "CONFIRMED: suite passes with the change ($sum); demo fails with it and passes without"
